@@ -574,6 +574,15 @@ def real_defs(body, local):
     return ds
 
 
+def value_defs(body, local):
+    """def_sites without clean-up blocks; a spliced-in call is looked through (the copy-out of the helper's result is the
+    definition, the marker call is dropped)"""
+    ds = [d for d in def_sites(body, local) if not body.is_cleanup(d[0])]
+    if any(i == "term" and d.get("inlined") for _, i, d in ds):
+        ds = [d for d in ds if not (d[1] == "term" and d[2].get("inlined"))]
+    return ds
+
+
 IDENTITY_CALLS = [
     r"convert::AsRef.*::as_ref$", r"::as_ref$", r"borrow::ToOwned::to_owned$", r"::to_owned$", r"clone::Clone::clone$",
     r"::to_path_buf$", r"convert::Into::into$", r"convert::From::from$", r"ops::Deref::deref$", r"ops::DerefMut::deref_mut$",
